@@ -174,7 +174,11 @@ func genC39Once(r *Rand, tier string, budget int) (Case, c39W) {
 		fname := fmt.Sprintf("lf%d", i+1)
 		sc := &c39scope{names: []string{fname}, fname: fname}
 		body := g.block(sc, 1, 2+r.Intn(3))
-		body = append(body, g.out(sc)) // normal completion ends with a command whose exit number is 0
+		// two out of three functions end with a plain `out`, so that normal completion has exit number 0; the
+		// others may end in a loop (possibly one that feeds a pipeline): then only `return n` fixes the exit number
+		if r.Intn(3) != 0 {
+			body = append(body, g.out(sc))
+		}
 		w.Funcs = append(w.Funcs, body)
 	}
 	g.nfuncs = nf
@@ -310,6 +314,12 @@ func (m *c39model) block(nodes []lnode, env map[string]int, fname string) c39ctl
 				exit = c.code
 			case c.kind == "break" && c.name == fn:
 				known = false // the statement does not say what a function ended by break exits with
+			default:
+				// normal completion: the exit number is that of the last command; only `out` is known to give 0
+				body := m.w.Funcs[n.K-1]
+				if len(body) == 0 || body[len(body)-1].T != "out" {
+					known = false
+				}
 			}
 			if n.Exitn {
 				if known {
@@ -532,7 +542,7 @@ func shrinkC39(c *Case) []Case {
 			return
 		}
 		for i, f := range v.Funcs {
-			if len(f) == 0 || f[len(f)-1].T != "out" || !c39Valid(f, []string{fmt.Sprintf("lf%d", i+1)}, map[string]bool{}, true, 0) {
+			if len(f) == 0 || !c39Valid(f, []string{fmt.Sprintf("lf%d", i+1)}, map[string]bool{}, true, 0) {
 				return
 			}
 		}
